@@ -157,7 +157,19 @@ fn adversarial(r: &mut Rng, i: u64) -> (String, String) {
             let mut s = String::from("/CIDInit /ProcSet findresource begin 12 dict begin begincmap 1 begincodespacerange <00> <FFFF> endcodespacerange ");
             for _ in 0..r.usize(14) { let t: &str = *r.pick(TOK); s.push_str(t); s.push(' '); }
             s.push_str("endcmap");
-            ("cmap-soup".into(), format!("M {} {}", hex_tok(s.as_bytes()), hex_tok(&r.bytes(6)))) }
+            if r.chance(1, 2) {
+                // a WELL-FORMED small CMap (codes of 1..4 bytes) and a text that mixes mapped codes with long unmapped runs
+                let mut m = String::from("/CIDInit /ProcSet findresource begin 12 dict begin begincmap 1 begincodespacerange <00> <FFFFFFFF> endcodespacerange ");
+                let n = 1 + r.usize(5); let mut codes: Vec<Vec<u8>> = vec![];
+                m.push_str(&format!("{} beginbfchar ", n));
+                for _ in 0..n { let len = 1 + r.usize(4); let code = r.bytes(len); m.push_str(&format!("<{}> <{:04X}> ", hex(&code), 0x41 + r.below(500))); codes.push(code); }
+                m.push_str("endbfchar endcmap");
+                let mut text = vec![];
+                for _ in 0..r.usize(8) { if r.chance(1, 2) { let cd: &Vec<u8> = r.pick(&codes[..]); text.extend_from_slice(cd); } else { let k = 1 + r.usize(12); text.extend(r.bytes(k)); } }
+                return ("cmap-text".into(), format!("M {} {}", hex_tok(m.as_bytes()), hex_tok(&text)));
+            }
+            let tl = r.usize(24);
+            ("cmap-soup".into(), format!("M {} {}", hex_tok(s.as_bytes()), hex_tok(&r.bytes(tl)))) }
         _ => { // startxref / header oddities
             let f = format!("{}%PDF-{}\n1 0 obj\nnull\nendobj\nxref\n0 2\n0000000000 65535 f \n0000000009 00000 n \ntrailer\n<</Size 2>>\nstartxref\n{}\n%%EOF{}", r.pick(&["", "junk", "%PDF-%PDF-"]), r.pick(&["1.4", "", "\u{e9}", "1.7\r"]), x(r), r.pick(&["", "\n", "%%EOF%%EOF%%EOF", " "]));
             ("startxref-extremes".into(), format!("L {}", hex_tok(f.as_bytes()))) }
